@@ -940,6 +940,7 @@ fn c03_partition_check(rep: &Report, c: &mut Counters, l: &Layer) {
     let mon = AncMon { watch: 1, sat: 3 };
     let ex = crate::model::explore_counted(c, &dfas, &mon, &alphabet);
     bump(c, "partitions_checked", 1);
+    rep.sample(json!({"negation": l.describe(), "exhaustive_program": e.pattern, "nonexhaustive_program": n.pattern, "product_states": ex.states.len()}));
     let strings = crate::model::access_strings(&ex);
     let asts: Vec<refmodel::syntax::Seq> = pats.iter().filter_map(|p| refmodel::syntax::parse(p).ok()).collect();
     let mut seen: Vec<String> = vec![];
